@@ -395,6 +395,28 @@ func runCluster(t *testing.T, run *vt.Run, c vt.CaseID, rng *rand.Rand, gossipOn
 					break
 				}
 				synctest.Wait()
+				if rng.IntN(3) == 0 {
+					// a real full-state dump of another node cut short (a broken push/pull stream): complete
+					// pairs in front of the cut may be merged, the cut pair must be dropped, nothing may crash
+					full := net.Nodes[rng.IntN(n)].KV.LocalState(false)
+					if len(full) > 0 {
+						cut := rng.IntN(len(full))
+						if rng.IntN(2) == 0 && len(full) > 6 {
+							cut = len(full) - 1 - rng.IntN(6)
+						}
+						var pn any
+						func() {
+							defer func() { pn = recover() }()
+							net.Nodes[j].KV.MergeRemoteState(append([]byte(nil), full[:cut]...), false)
+						}()
+						synctest.Wait()
+						s.stats["truncated_states_injected"]++
+						if pn != nil {
+							viol("malformed/panic", fmt.Sprintf("a full state truncated to %d of %d bytes crashed the node: %v", cut, len(full), pn), nil)
+						}
+					}
+					break
+				}
 				before := net.StateCanon(j)
 				var pn any
 				func() {
@@ -666,6 +688,49 @@ func directedContended(t *testing.T, run *vt.Run, c vt.CaseID) {
 	})
 }
 
+// truncations: every prefix of a sender's full state goes to one receiver; nothing may crash, and after the intact
+// state the receiver shows what the sender shows.
+func truncations(t *testing.T, run *vt.Run, c vt.CaseID, rng *rand.Rand) {
+	synctest.Test(t, func(t *testing.T) {
+		net, err := simnet.New(2, simnet.DefaultConfig(time.Hour))
+		if err != nil {
+			run.Inconclusive(err.Error())
+			return
+		}
+		defer net.Stop()
+		s := &sim{net: net, rng: rng, n: 2, group: make([]int, 2), stats: map[string]int{}, onceWritten: map[int]bool{}}
+		for k := 1 + rng.IntN(5); k > 0; k-- {
+			if rng.IntN(3) == 0 {
+				s.casPart(0)
+			} else {
+				s.casRing(0)
+			}
+			time.Sleep(time.Second)
+			synctest.Wait()
+		}
+		full := net.Nodes[0].KV.LocalState(false)
+		for cut := 0; cut <= len(full); cut++ {
+			var pn any
+			func() {
+				defer func() { pn = recover() }()
+				net.Nodes[1].KV.MergeRemoteState(append(make([]byte, 0, cut+rng.IntN(3)), full[:cut]...), false)
+			}()
+			run.EvalH(vt.Mix(uint64(c.Idx), uint64(cut), 77), cut > 0 && cut < len(full))
+			if pn != nil {
+				run.Violation(c, "malformed/panic", fmt.Sprintf("a full state truncated to %d of %d bytes crashed the node: %v", cut, len(full), pn), map[string]any{"cut": cut, "length": len(full), "journal": s.journal})
+				return
+			}
+		}
+		synctest.Wait()
+		run.Count("truncated_states_injected", int64(len(full)+1))
+		for _, key := range []string{simnet.RingKey, simnet.PartKey} {
+			if a, b := net.Visible(0, key), net.Visible(1, key); a != b {
+				run.Violation(c, "truncations/receiver-differs-after-intact-state", "after every prefix and the intact full state the receiver shows another value than the sender", map[string]any{"key": key, "sender": a, "receiver": b})
+			}
+		}
+	})
+}
+
 func TestC06(t *testing.T) {
 	run := vt.NewRun("C06", "fault_enumeration")
 	run.SetRule("case = one seeded adversarial schedule on 2-6 gossip KV nodes detached from the transport (verif hook), inside a synctest bubble: acknowledged CAS on the instance ring and the partition ring on any node, gossip rounds where the adversary decides per (message, destination) deliver / drop (p in {0,.3,.9}) / duplicate / delay and reorder / block by partition, push/pull exchanges, partitions and heals, node restarts, watcher registration, malformed messages (only ones the public codec rejects), virtual time advances; then a bounded recovery (all delayed messages, 2(N-1) push/pull exchanges along a chain, 12 lossless full-fan-out gossip rounds) and the judgement: all nodes expose the same value per key, every acknowledged CAS is dominated by every node's stored state, every watcher's last value is its node's final value, Invalidates(new, old) only when new contains old, malformed messages leave the stored state unchanged and do not crash. A second mode runs lossless full-fan-out gossip only (no push/pull) where divergence would reveal lost queue entries. non-trivial = more than one acknowledged CAS; distinct by journal; distinct fault-statistics vectors counted.")
@@ -678,6 +743,11 @@ func TestC06(t *testing.T) {
 	run.ForEachT(t, "gossip-only", vt.N(500, 15000), func(t *testing.T, c vt.CaseID, rng *rand.Rand, s *vt.Slot) {
 		s.Enter(c, "crash/gossip-only")
 		runCluster(t, run, c, rng, true, false)
+		s.Leave()
+	})
+	run.ForEachT(t, "truncations", vt.N(40, 1500), func(t *testing.T, c vt.CaseID, rng *rand.Rand, s *vt.Slot) {
+		s.Enter(c, "crash/truncations")
+		truncations(t, run, c, rng)
 		s.Leave()
 	})
 	// token conflicts between entries that are rewritten or removed later (a known finding: the stored
